@@ -305,7 +305,7 @@ theorem identLine_head (name : Str) (a : Anns) (hw : wfWord name = true) :
     · exact ⟨c, cs ++ ':' :: ' ' :: serializeAnnotations a, rfl, hc⟩
 
 theorem lineBody_ident (h : Hdr) (st : BSt) (ln col : Nat) (orig : Str) (name : Str) (a : Anns)
-    (hw : wfWord name = true) (hs : NotSectionAction name) (ha : wfAnns a = true) (hb : st.block = none) :
+    (hw : wfWord name = true) (hs : NotSection name) (ha : wfAnns a = true) (hb : st.block = none) :
     lineBody h st ln col orig (identLine name a) =
       .ok { st with inPart := some .ident, partIndent := some 0, block := some (identBlock h name a ln) } := by
   obtain ⟨c, cs, he, hc⟩ := identLine_head name a hw
